@@ -1,8 +1,8 @@
 ID = "C17"
 CONFIG = dict(
     harness="c17_headers",
-    harnesses=["c17_registry", "c17_keyparser"],
-    fuzz_harnesses=[],
+    harnesses=["c17_registry", "c17_keyparser", "c17_headers"],
+    fuzz_harnesses=["c17_headers"],
     flavours=["plain", "asan"],
     fuzz=True,
     fuzz_max_len=4096,
